@@ -15,17 +15,18 @@ T = {
             "Held-on-what-was-executed, not a proof.",
             "trusts the harness's shadow set and the Python interpreter; universes are small (<= 60 keys) so every key is probed after every step", "4/C01"),
     "C02": ("exploration", "runtime monitor: history + true-count model, bounds and collision-free exactness after every call",
-            "Count-min sketches of width 1..8 (heavy collisions) and larger, depth 1..6, all hash strategies, histories of add/remove with legitimate "
-            "removals; after every call every universe key is checked for true <= estimate <= total, exactness when it shares no counter, and the "
+            "Count-min sketches of width 1..8 (heavy collisions) and larger (every width 1..300 and 2^e, 2^e+-1 up to 2^20 in a sweep), depth 1..6, all hash strategies, "
+            "histories of add/remove with legitimate removals, interleaved read-only calls and joins with a second sketch that is changed afterwards; after every call every universe key is checked for true <= estimate <= total, exactness when it shares no counter, and the "
             "returned value against an immediate check().",
             "true counts and the shares-no-counter predicate are computed by the harness from the public hashes(); totals stay below 2^31-1", "4/C02"),
     "C03": ("exploration", "runtime monitor under enumerated internal random choices (scripted stdlib random, DFS over eviction decisions) + fingerprint-level model",
             "Cuckoo and counting cuckoo filters on tiny tables; the library's random.choice/randint calls are scripted from outside and ALL "
             "resolutions are enumerated by DFS for bounded histories (sampled beyond the bound); after every call, including ones that raised "
-            "CuckooFilterFullError, every model key is probed.",
+            "CuckooFilterFullError, every model key is probed. A crowd workload keeps several filters with different hash strategies alive at once "
+            "(interleaved histories, one bulk filter of 70 000+ keys) and probes every model after every call.",
             "the fingerprint model uses an independent FNV-1a; enumeration is complete only for the histories whose decision tree is below the leaf cap (reported)", "4/C03"),
     "C04": ("exploration", "runtime monitor: history + set model with full probe after every call, BFS over reachable layouts for q=3, line-step budget for termination",
-            "Quotient filters q=3..6 are driven with add/remove/resize/merge over universes built to form runs, clusters, shifted runs and wrap-around; "
+            "Quotient filters q=3..6 (completely full tables up to q=11) are driven with add/remove/resize/merge over universes built to form runs, clusters, shifted runs and wrap-around; "
             "after every call check_alt of every universe hash, sorted get_hashes() and elements_added are compared with a Python set; each call runs under "
             "a sys.monitoring line budget so non-termination is observed, not waited for.",
             "model is a Python set of ints; removals on completely full single-cluster tables (the former known finding K1, repaired in /repo) are executed and counted separately; a wall-clock watchdog only triggers a re-run under the line budget", "4/C04"),
@@ -46,11 +47,11 @@ T = {
             "multiset and exported bytes with those of a fresh filter fed exactly that multiset; scripted eviction choices for the cuckoo variant.",
             "below saturation; removals never exceed the outstanding count", "4/C08"),
     "C09": ("exploration", "runtime monitor: history + FIFO growth model on the parsed export stream",
-            "Expanding Bloom filters with est_elements 1..6 and 25 through add/duplicate/forced/push/reload histories; per-filter counts are parsed "
+            "Expanding Bloom filters with est_elements 1..6 and 25 through add/duplicate/forced/push/reload histories, plus every est_elements 1..400 and a grid up to 2000 across the growth boundaries; per-filter counts are parsed "
             "independently from the exported stream after every call and compared with a FIFO growth model.",
             "effectiveness of an add is decided by the harness before the call from the filter's own check()", "4/C09"),
     "C10": ("exploration", "runtime monitor: history + FIFO window model (lower bound) and structural bounds",
-            "Rotating Bloom filters est 1..6, queue 1..5 through add/duplicate/forced/push/pop/reload; after every call queue bounds, per-filter counts and "
+            "Rotating Bloom filters est 1..6, queue 1..5 through add/duplicate/forced/push/pop/reload, plus every est_elements 1..320 with queue 1..3 across a full rotation; after every call queue bounds, per-filter counts and "
             "the retention window of every tracked key are checked.",
             "only the lower bound of retention is asserted; explicit pop/push void the window for older keys", "4/C10"),
     "C11": ("fault_enumeration", "crash-point enumeration: sys.monitoring LINE snapshots of the backing file at every executed library line; real SIGKILL at every armed line (thorough)",
